@@ -54,9 +54,41 @@ async def program(rng, env, depth, problems, who, children, budget):
     if depth == 0 or problems:
         return
     for _ in range(rng.randint(1, 2)):
-        kind = rng.choice(["scope", "ascope", "updated", "spawn", "task"])
+        kind = rng.choice(["scope", "ascope", "updated", "spawn", "task", "handoff"])
         supplied = [rng.choice(TYPES)(v=rng.randint(1, 999)) for _ in range(rng.randint(0, 2))]
         frame = {type(s): s for s in supplied}
+        if kind == "handoff":
+            # a scope object made by this task inside a private update, entered by a child that was started before it:
+            # the child sees its own start snapshot plus what the scope supplies - nothing of the maker's private update
+            if budget[0] <= 0:
+                continue
+            budget[0] -= 1
+            snap = list(env)
+            name = f"{who}.handoff{budget[0]}"
+            fut = asyncio.get_running_loop().create_future()
+            use_async = rng.random() < 0.5
+
+            async def receiver(snap=snap, frame=frame, name=name, fut=fut, use_async=use_async):
+                sc = await fut
+                lookup_ok(snap, problems, name)
+                if use_async:
+                    async with sc:
+                        lookup_ok(snap + [frame], problems, name + ":inside the handed-over scope")
+                        await asyncio.sleep(0)
+                else:
+                    with sc:
+                        lookup_ok(snap + [frame], problems, name + ":inside the handed-over scope")
+                        await asyncio.sleep(0)
+                lookup_ok(snap, problems, name)
+            children.append(ctx.spawn(receiver) if rng.random() < 0.5 else asyncio.ensure_future(receiver()))
+            await asyncio.sleep(0)
+            private = [rng.choice(TYPES)(v=rng.randint(1000, 1999)) for _ in range(rng.randint(1, 2))]
+            with ctx.updated(*private):
+                fut.set_result(ctx.scope("job", *supplied))
+                await asyncio.sleep(0)
+                lookup_ok(env + [{type(x): x for x in private}], problems, who)
+            lookup_ok(env, problems, who)
+            continue
         if kind in ("spawn", "task"):
             if budget[0] <= 0:
                 continue
